@@ -180,11 +180,14 @@ def run_case(case, ctx):
             ctx.violation("input-mutated", "rho(1d,1d) modified its arguments")
     # rectangular blocks over arbitrary (unordered, repeated, one-row, all-equal) row and column sets held in other
     # memory forms, and the same tensor object for both arguments: the entry belongs to the pair of basis states
-    for rep_ in range(3):
-        mi, mj = [(1, int(rng.integers(1, N + 2))), (int(rng.integers(2, 2 * N + 1)), int(rng.integers(1, N + 2))), (3, 3)][rep_]
+    for rep_ in range(4):
+        mi, mj = [(1, int(rng.integers(1, N + 2))), (int(rng.integers(2, 2 * N + 1)), int(rng.integers(1, N + 2))), (3, 3),
+                  (int(rng.integers(2, N + 1)),) * 2][rep_]
         ii, jj = rng.integers(0, N, size=mi), rng.integers(0, N, size=mj)
         if rep_ == 2:
             ii[:] = ii[0]
+        if rep_ == 3:  # pairwise distinct rows / columns in no particular order
+            ii, jj = rng.permutation(N)[:mi], rng.permutation(N)[:mj]
         a, fa = gen.memory_form(sp[ii.tolist()].clone(), rng)
         if rep_ == 2:
             b, fb, jj = a, fa, ii  # rho(v, v) with the very same object
